@@ -44,6 +44,7 @@ inductive CaseSt where
   | fresh
   | framing (f : FState)
   | rpc (kind : Kind) (r : Rpc)
+  | world (w : World)
 
 def expectTok (ts : List String) (want : String) : Except String (List String) :=
   match ts with
@@ -268,6 +269,76 @@ def rpcOp (k : Kind) (r : Rpc) (ws : List String) (impl : String) :
       some (finish r' evs tags)
   | _ => none
 
+def svcTok : Service → String
+  | .sync 0 => "s0"
+  | .sync 5 => "s5"
+  | .sync c => s!"s?{c}"
+  | .async => "as"
+  | .unknown => "no"
+
+def svc? : String → Option Service
+  | "s0" => some (.sync 0)
+  | "s5" => some (.sync 5)
+  | "as" => some .async
+  | "no" => some .unknown
+  | _ => none
+
+def showWEvs (svc : Service) (es : List REv) : String :=
+  if es.isEmpty then "-" else " ".intercalate (es.map fun
+    | .sent id => s!"s{id}:{svcTok svc}"
+    | .fired t c => s!"f{t}:{c}")
+
+def showSEvs (es : List SEv) : String :=
+  if es.isEmpty then "-" else " ".intercalate (es.map fun
+    | .called id => s!"c{id}"
+    | .sent id c => s!"r{id}:{c}")
+
+def queue? : String → Option Bool
+  | "cs" => some true
+  | "sc" => some false
+  | _ => none
+
+def worldOp (w : World) (ws : List String) (impl : String) : Option (Except String (CaseSt × List String)) :=
+  let finish (w' : World) (svc : Service) (cevs : List REv) (sevs : List SEv) (tags : List String) :
+      Except String (CaseSt × List String) :=
+    let want := "P ev " ++ showWEvs svc cevs ++ " | " ++ showSEvs sevs
+    if impl.trimAscii.toString = want then .ok (.world w', tags)
+    else .error s!"expected '{want}' got '{impl.trimAscii.toString}'"
+  let stepTags (op : WOp) (cevs : List REv) (sevs : List SEv) : List String :=
+    (match op with
+     | .request c _ => [if c then "w-req-chain" else "w-req"]
+     | .notify _ => ["w-notify"]
+     | .deliver true i => [if i < w.c2s.length then (if i == 0 then "w-dlv-req" else "w-dlv-req-reordered") else "w-dlv-none"]
+     | .deliver false i => [if i < w.s2c.length then (if cevs.isEmpty then "w-dlv-rsp-ignored" else "w-dlv-rsp-hit") else "w-dlv-none"]
+     | .drop _ _ => ["w-drop"]
+     | .dup _ _ => ["w-dup"]
+     | .srespond id _ => [if sevs.isEmpty then "w-srsp-id0" else if w.v.tobe.contains id then "w-srsp-awaited" else "w-srsp-unawaited"]
+     | _ => []) ++
+    (if sevs.any (fun | .sent _ c => c == kMethodNotFound | _ => false) then ["w-method-not-found"] else []) ++
+    (if sevs.any (fun | .called 0 => true | _ => false) then ["w-notification-served"] else [])
+  let doStep (op : WOp) (svc : Service) : Option (Except String (CaseSt × List String)) :=
+    let (w', cevs, sevs) := w.step op
+    some (finish w' svc cevs sevs (stepTags op cevs sevs))
+  match ws with
+  | ["req", c, m] => do
+      let svc ← svc? m
+      if c == "0" || c == "1" then doStep (.request (c == "1") svc) svc else none
+  | ["note", m] => do let svc ← svc? m; doStep (.notify svc) svc
+  | ["dlv", q, i] => do let q ← queue? q; let i ← i.toNat?; doStep (.deliver q i) chainSvc
+  | ["drop", q, i] => do let q ← queue? q; let i ← i.toNat?; doStep (.drop q i) chainSvc
+  | ["dup", q, i] => do let q ← queue? q; let i ← i.toNat?; doStep (.dup q i) chainSvc
+  | ["srsp", id, code] => do
+      let id ← int32? id; let code ← int32? code
+      doStep (.srespond id code) chainSvc
+  | ["adv", ms] => do
+      let ms ← ms.toNat?
+      if ms > 100000 then none else
+      let (w', cevs) := w.advance ms
+      let tags := (if cevs.any (fun | .fired _ c => c == kRequestTimeout | _ => false) then ["w-timeout-fired"] else ["w-adv"]) ++
+                  (if w.v.tobe.length > w'.v.tobe.length then ["w-respond-timeout"] else [])
+      some (finish w' chainSvc cevs [] tags)
+  | _ => none
+
 structure DSt where
   ops  : List String := []     -- reversed
   impl : List String := []     -- reversed
@@ -299,9 +370,18 @@ def processCase (ops impl : List String) : List String :=
                | "R", some n => mk .R n
                | "P", some n => mk .P n
                | _, _ => none)
+          | .fresh, ["world", _k, nc, ns] =>
+              (match nc.toNat?, ns.toNat? with
+               | some nc, some ns =>
+                 if 1 ≤ nc ∧ nc ≤ 8 ∧ 1 ≤ ns ∧ ns ≤ 8 ∧ (_k == "H" || _k == "R" || _k == "P") then
+                   some (if iw == ["P", "world"] then Except.ok (CaseSt.world { c := Rpc.init nc, v := Srv.init ns }, ["world-open"])
+                         else Except.error s!"expected 'P world' got {il}")
+                 else none
+               | _, _ => none)
           | .fresh, _ => (framingOp {} ws iw).map (·.map fun (f, t) => (.framing f, t))
           | .framing f, _ => (framingOp f ws iw).map (·.map fun (f, t) => (.framing f, t))
           | .rpc k r, _ => rpcOp k r ws il
+          | .world w, _ => worldOp w ws il
         match res with
         | none =>
             if iw == ["bad-op"] then "ok bad-op" :: go st ops' impl' fuel
